@@ -249,6 +249,18 @@ def _gates(tier):
     for kind, magic_w in (("SPARSE", 4), ("VMFSSPARSE", 4), ("SESPARSE", 8)):
         yield dict(name=f"vmdk.extent_magic.{kind}", kind="magic", raw=_vmdk_extent(kind), off=0, width=magic_w,
                    open=lambda raw, kind=kind: _open_vmdk_desc(raw, kind))
+    # format versions of the three sparse headers: hosted 1..3 (3 = compressed / stream-optimised), COWD 1, SE-sparse 2.1
+    def open_vmdk_raw(raw):
+        from dissect.hypervisor.disk.vmdk import VMDK
+
+        return VMDK(io.BytesIO(raw)).read(512)
+
+    yield dict(name="vmdk.hosted_version", kind="numeric", raw=_vmdk_extent("SPARSE"), off=4, width=4, endian="<",
+               accepted=lambda v: v in (1, 2, 3), open=open_vmdk_raw, accept_check="open-only")
+    yield dict(name="vmdk.cowd_version", kind="numeric", raw=_vmdk_extent("VMFSSPARSE"), off=4, width=4, endian="<",
+               accepted=lambda v: v == 1, open=open_vmdk_raw)
+    yield dict(name="vmdk.sesparse_version", kind="numeric", raw=_vmdk_extent("SESPARSE"), off=8, width=8, endian="<",
+               accepted=lambda v: v == 0x0000000200000001, open=open_vmdk_raw)
     # extent kinds the grammar accepts but the reader cannot map (raw device mappings): the disk must not be served without them
     for kind in ("VMFSRDM", "VMFSRAW"):
         yield dict(name=f"vmdk.extent_type.{kind}", kind="single", seed_ok=lambda: _open_vmdk_kinds(["FLAT", "FLAT"]),
